@@ -55,7 +55,7 @@ ASSUMPTIONS = [
 
 REPO = lib.REPO
 FS, RS = lib.FS, lib.RS
-US, IS, SS, VS = "\ue002", "\ue003", "\ue004", "\ue005"
+US, IS, SS, VS = "\x01", "\x02", "\x03", "\x04"      # never occur in the generated texts (chk_text)
 SEPS = FS + RS + US + IS + SS + VS
 
 
@@ -287,8 +287,8 @@ def all_spellings():
     return out
 
 
-def enc_las(las):
-    """fields 2..11 of a las-based case"""
+def enc_las(las, view=None):
+    """fields 2..11 of a las-based case (the oracle tables only for the views that consult them)"""
     for name in ("Version", "Well", "Curves", "Parameter"):
         if not hasattr(las.sections.get(name), "dictview"):
             raise Unsupported("standard section %s is not a SectionItems" % name)
@@ -314,7 +314,8 @@ def enc_las(las):
     return [("T" if las.well.mnemonic_transforms else "F") + ("T" if las.curves.mnemonic_transforms else "F"),
             enc_items(las.version), enc_items(las.well), enc_items(las.curves, True), enc_items(las.params),
             chk_text(las.other), pl(RS, extra), "N" if iu is None else "S" + chk_text(iu),
-            float_table(las), upper_table([chk_text(u) for u in ups])]
+            float_table(las) if view in (None, "csv", "xlsx") else "",
+            upper_table([chk_text(u) for u in ups]) if view in (None, "unit", "rt") else ""]
 
 
 # ------------------------------------------------------------------------------------------
@@ -855,7 +856,7 @@ def evaluate(payload):
             kw["index_unit"] = opts["index_unit"]
         spec["kw"] = kw
         las = build(spec)
-        enc = enc_las(las)
+        enc = enc_las(las, view)
         obs = "N" if las.index_unit is None else "S" + str(las.index_unit)
         return FS.join([view, opts_field(view, opts)] + enc), obs, oracle_unit(las, opts.get("index_unit"))
     if view == "depth":
@@ -876,7 +877,7 @@ def evaluate(payload):
             exp = exc_name(e)
         return inp, exp, oracle_depth(las)
     las = build(payload["las"])
-    enc = enc_las(las)
+    enc = enc_las(las, view)
     inp = FS.join([view, opts_field(view, opts)] + enc)
     if view == "json":
         return inp, obs_json(las), oracle_json(las)
@@ -922,10 +923,10 @@ Require Import Tables Export.
 Open Scope list_scope.
 Open Scope N_scope.
 
-Definition US : N := 57346.
-Definition IS : N := 57347.
-Definition SS : N := 57348.
-Definition VS : N := 57349.
+Definition US : N := 1.
+Definition IS : N := 2.
+Definition SS : N := 3.
+Definition VS : N := 4.
 Definition plist (sep : N) (s : list N) : list (list N) :=
   match split_char sep s with [] => [] | _ :: t => t end.
 Definition fld (n : nat) (l : list (list N)) : list N := nth n l [].
